@@ -150,7 +150,11 @@ static const std::vector<std::string> ARGV0 = {"prog", "/usr/local/bin/prog", ""
 struct Heap {  // argv in exact-size heap blocks, argv[argc] == NULL
   std::vector<char *> ptrs;
   char **argv = nullptr;
-  explicit Heap(const std::vector<std::string> &v) {
+  // tail: words that follow the vector in memory but lie beyond argc (the caller parses a prefix of a longer vector); the parser is
+  // given argc and must not look at them
+  explicit Heap(const std::vector<std::string> &v0, const std::vector<std::string> &tail = {}) {
+    std::vector<std::string> v = v0;
+    v.insert(v.end(), tail.begin(), tail.end());
     argv = (char **)malloc((v.size() + 1) * sizeof(char *));
     for (size_t i = 0; i < v.size(); i++) {
       char *p = (char *)malloc(v[i].size() + 1);
@@ -188,7 +192,11 @@ static std::string show_label(const TTable &t, int l) {
 static struct c18_rec REC;
 static std::pair<std::string, std::string> parse_and_compare(int ti, const std::vector<std::string> &argv, int reset_mode, int opterr_val, int stop_after, const Ref &ref) {
   const TTable &t = TABLES[(size_t)ti];
-  Heap h(argv);
+  // one vector in three is the prefix of a longer one (chosen by the vector itself, so that replays agree): registered options, an option
+  // argument and an operand follow beyond argc
+  std::vector<std::string> tail;
+  if (fnv(show_argv(argv)) % 3 == 0 && !t.opts.empty()) tail = {t.opts[0].name, std::string(t.opts[t.opts.size() - 1].name), "value", "--", "operand"};
+  Heap h(argv, tail);
   REC.stop_after = stop_after;
   shim_parse(ti, (int)argv.size(), h.argv, reset_mode, opterr_val, &REC);
   if (REC.overflow)  // argv holds at most 8 x 20 characters, so more than C18_MAXEV labels means the loop does not advance
